@@ -36,7 +36,7 @@ INFO = {
 # category coding of batch columns (core_ranking.py:108-114): pandas chooses the code width by the number of categories (int8 up to
 # 127, int16 up to 32767, int32 beyond), so the coding step has three regimes; one or two cardinalities per regime, at the borders
 CARD = {'quick': [3, 127, 128, 200, 32767, 32768, 33000, 66000], 'thorough': [3, 127, 128, 129, 200, 32767, 32768, 32769, 40000, 66000]}
-RENAMES = ['ascending', 'descending', 'scrambled']
+RENAMES = ['ascending', 'descending', 'scrambled', 'numeric-spellings']
 CODING_HEUR = ['MI-numba-randomized', 'MI-numba-3mr']
 for _t in CARD:
     INFO['bounds'][_t]['coding'] = [f'{k} categories x names in {RENAMES} order x {CODING_HEUR if k <= 200 else CODING_HEUR[:1]}' for k in CARD[_t]]
@@ -48,17 +48,24 @@ HEAVY_RANKS = (5, 133, 261, 32773, 65541)      # sort ranks 2^7, 2^8, 2^15 and 2
 def coding_frame(K, rename):
     """About 2K rows: column hi takes K distinct values; a few heavy categories - chosen by the SORT RANK of their name, i.e. by the
     code pandas gives them - carry different label distributions, so the score moves if any two of them are identified. The names
-    are assigned in ascending / descending / scrambled order of the ids."""
-    step = next(p for p in (7919, 104729, 1299709) if K % p and p % K)
-    rank = {'ascending': lambda i: i, 'descending': lambda i: K - 1 - i, 'scrambled': lambda i: (i * step + 11) % K}[rename]
-    inv = {rank(i): i for i in range(K)}
-    assert len(inv) == K
-    heavy = [inv[r] for r in sorted({r % K for r in HEAVY_RANKS})]
+    are assigned in ascending / descending / scrambled order of the ids, or are numeric-looking texts of which neighbouring pairs
+    denote the same number ('7' / '07'): different categories all the same."""
+    if rename == 'numeric-spellings':
+        names = [(str(i // 2) if i % 2 == 0 else '0' + str(i // 2)) for i in range(K)]
+        heavy = list(range(min(K, 4)))
+    else:
+        step = next(p for p in (7919, 104729, 1299709) if K % p and p % K)
+        rank = {'ascending': lambda i: i, 'descending': lambda i: K - 1 - i, 'scrambled': lambda i: (i * step + 11) % K}[rename]
+        inv = {rank(i): i for i in range(K)}
+        assert len(inv) == K
+        names = [f'v{rank(i):07d}' for i in range(K)]
+        heavy = [inv[r] for r in sorted({r % K for r in HEAVY_RANKS})]
+    assert len(set(names)) == K
     H = len(heavy)
     E = max(60, K // H) * H          # the heavy categories carry about half of the rows
     ids = list(range(K)) + [heavy[j % H] for j in range(E)]
     lab = [str(i % 2) for i in range(K)] + [('1' if (j // H) % (H + 1) <= j % H else '0') for j in range(E)]
-    return ids, [f'v{rank(i):07d}' for i in ids], lab, heavy
+    return ids, [names[i] for i in ids], lab, heavy
 
 
 def first_codes(v):
@@ -100,7 +107,7 @@ def jobs(tier):
                 out.append({'cond': cond, 'n': 2 if cond == 'relabel-both' else 3, 'K': 2, 'K2': 4, 'corr': c, 'pins': {'x0': x0}, 'sparse': True, 'weight': 200,
                             'label': f'sparse recoding into {SPARSE},x0={x0},corr={c}'})
     for ki in range(len(CARD[tier])):
-        for pins in ([{'card': ki, 'rename': r} for r in range(len(RENAMES))] if CARD[tier][ki] > 1000 else [{'card': ki}]):
+        for pins in ([{'card': ki, 'rename': r} for r in range(len(RENAMES) - 1)] if CARD[tier][ki] > 1000 else [{'card': ki}]):
             out.append({'cond': 'coding', 'n': 0, 'K': CARD[tier][ki], 'K2': 0, 'corr': True, 'tier': tier, 'pins': pins, 'weight': 6, 'label': f'{CARD[tier][ki]} categories {pins}'})
     for cond, lst in BOUNDS[tier].items():
         for b in lst:
@@ -122,6 +129,7 @@ def run_coding(job):
         ctx.assume(st['card'] >= 0, st['card'] < len(cards), st['ren'] >= 0, st['ren'] < len(RENAMES), st['h'] >= 0, st['h'] < len(CODING_HEUR))
         # MI-numba-3mr scores the column against itself as well, which is quadratic in the number of categories: small cardinalities only
         ctx.assume(z3.Or(st['h'] == 0, z3.Or([st['card'] == i for i, k in enumerate(cards) if k <= 200])))
+        ctx.assume(z3.Or(st['ren'] != RENAMES.index('numeric-spellings'), z3.Or([st['card'] == i for i, k in enumerate(cards) if k <= 200])))
         for k, v in job['pins'].items():
             ctx.assume(z3.Int(k) == v)
 
